@@ -25,7 +25,7 @@
 (* Machine words are pairs of 16-bit limbs <<hi, lo>> (TLC integers are     *)
 (* 32-bit); byte strings are sequences of 0..255.                           *)
 (***************************************************************************)
-EXTENDS Integers, Sequences, FiniteSets, OpTable
+EXTENDS Integers, Sequences, FiniteSets, TLC, OpTable
 
 \* ------------------------------------------------------------------ bits
 \* bits lo..hi (inclusive, hi-lo <= 19) of the dword w = <<hi limb, lo limb>>
@@ -452,5 +452,96 @@ Encode(d) ==
 AsmFields(f, fv, x1) ==
   IF BaseSize(f) = 8 THEN Bytes(W0(f, fv)) \o Bytes(AsmW(f, 1, fv))
   ELSE Bytes(W0(f, fv)) \o Bytes(x1)
+
+\* =========================================================================
+\* Print: the disassembly text of a description (insts.InstPrinter.Print and
+\* insts.Operand.String; the LLVM-style text the repository's tests compare)
+\* =========================================================================
+HexDigit(n) == SubSeq("0123456789abcdef", n + 1, n + 1)
+RECURSIVE Hex(_)
+Hex(n) == IF n < 16 THEN HexDigit(n) ELSE Hex(n \div 16) \o HexDigit(n % 16)
+Hex4(n) == HexDigit(n \div 4096) \o HexDigit((n \div 256) % 16) \o HexDigit((n \div 16) % 16) \o HexDigit(n % 16)
+Hex32(hi, lo) == IF hi = 0 THEN Hex(lo) ELSE Hex(hi) \o Hex4(lo)
+
+Unprintable == "?"         \* the text is not specified (register ranges of registers that have none)
+SpecialName(c) ==
+  CASE c = 102 -> "flatsratchlo" [] c = 103 -> "flatsratchhi" [] c = 104 -> "xnackmasklo" [] c = 105 -> "xnackmaskhi"
+    [] c = 106 -> "vcclo" [] c = 107 -> "vcchi" [] c = 108 -> "tbalo" [] c = 109 -> "tbahi"
+    [] c = 110 -> "tmalo" [] c = 111 -> "tmahi" [] c = 124 -> "m0" [] c = 126 -> "execlo" [] c = 127 -> "exechi"
+    [] c = 251 -> "vccz" [] c = 252 -> "execz" [] c = 253 -> "scc"
+    [] OTHER -> "timp" \o ToString(c - 112)
+\* a register range: s[a:b], v[a:b], the 64-bit name of a lo half, otherwise unspecified
+RangeName(c, n) ==
+  IF c <= 101 THEN "s[" \o ToString(c) \o ":" \o ToString(c + n - 1) \o "]"
+  ELSE IF c >= 256 THEN "v[" \o ToString(c - 256) \o ":" \o ToString(c - 256 + n - 1) \o "]"
+  ELSE CASE c = 102 -> "flatsratch" [] c = 104 -> "xnackmask" [] c = 106 -> "vcc" [] c = 108 -> "tba"
+         [] c = 110 -> "tma" [] c = 126 -> "exec" [] OTHER -> Unprintable
+FloatText(c) ==
+  CASE c = 240 -> "0.5" [] c = 241 -> "-0.500000" [] c = 242 -> "1.0" [] c = 243 -> "-1.0" [] c = 244 -> "2.000000"
+    [] c = 245 -> "-2.000000" [] c = 246 -> "4.000000" [] c = 247 -> "-4.000000" [] OTHER -> "0.159155"
+OpText(o) ==
+  CASE o[1] = "reg"   -> IF o[3] > 1 THEN RangeName(o[2], o[3])
+                         ELSE IF o[2] <= 101 THEN "s" \o ToString(o[2])
+                         ELSE IF o[2] >= 256 THEN "v" \o ToString(o[2] - 256)
+                         ELSE SpecialName(o[2])
+    [] o[1] = "int"   -> ToString(o[2])
+    [] o[1] = "float" -> FloatText(o[2])
+    [] o[1] = "lit"   -> "0x" \o Hex32(o[2], o[3])
+    [] OTHER          -> Unprintable
+SelText(i) == CASE i = 0 -> "BYTE_0" [] i = 1 -> "BYTE_1" [] i = 2 -> "BYTE_2" [] i = 3 -> "BYTE_3"
+                [] i = 4 -> "WORD_0" [] i = 5 -> "WORD_1" [] OTHER -> "DWORD"
+UnusedText(i) == CASE i = 0 -> "UNUSED_PAD" [] i = 1 -> "UNUSED_SEXT" [] OTHER -> "UNUSED_PRESERVE"
+ModText(o, neg, abs) ==
+  (IF neg = 1 THEN "-" ELSE "") \o (IF abs = 1 THEN "|" ELSE "") \o OpText(o) \o (IF abs = 1 THEN "|" ELSE "")
+
+PrintRaw(d) ==
+  LET o == d.o  m == d.m  op == d.op  nm == d.nm  row == Lookup(d.f, d.op)
+      s0 == OpText(o[1])  s1 == OpText(o[2])  s2 == OpText(o[3])  dst == OpText(o[4])
+  IN
+  CASE d.f = "sop2" -> nm \o " " \o dst \o ", " \o s0 \o ", " \o s1
+    [] d.f = "sop1" -> nm \o " " \o dst \o ", " \o s0
+    [] d.f = "vop1" -> nm \o " " \o dst \o ", " \o s0
+    [] d.f = "sopc" -> nm \o " " \o s0 \o ", " \o s1
+    [] d.f = "sopk" -> nm \o " " \o dst \o ", 0x" \o Hex(o[11][2])
+    [] d.f = "sopp" -> IF op = 12
+                       THEN nm \o (IF m[16] # 15 THEN " vmcnt(" \o ToString(m[16]) \o ")" ELSE "")
+                               \o (IF m[17] # 15 THEN " lgkmcnt(" \o ToString(m[17]) \o ")" ELSE "")
+                       ELSE IF op = 1 \/ op = 10 THEN nm
+                       ELSE nm \o " " \o OpText(o[11])
+    [] d.f = "smem" -> nm \o " " \o OpText(o[7]) \o ", " \o OpText(o[9]) \o ", 0x"
+                          \o Hex(IF o[10][1] = "int" THEN o[10][2] % 65536 ELSE 0)
+    [] d.f = "vopc" -> nm \o " " \o (IF row.cx THEN "exec" ELSE "vcc") \o ", " \o s0 \o ", " \o s1
+    [] d.f = "vop2" ->
+         LET body == (IF m[18] = 1 THEN row.alt ELSE nm) \o " " \o dst
+                     \o (IF op \in 25..30 THEN ", vcc" ELSE "") \o ", " \o s0 \o ", " \o s1
+                     \o (IF op \in {0, 28, 29} THEN ", vcc" ELSE IF op \in {24, 37} THEN ", " \o s2 ELSE "")
+         IN IF m[18] = 1
+            THEN body \o " dst_sel:" \o SelText(m[19]) \o " dst_unused:" \o UnusedText(m[20])
+                      \o " src0_sel:" \o SelText(m[21]) \o " src1_sel:" \o SelText(m[22])
+            ELSE body
+    [] d.f = "vop3a" -> nm \o " " \o dst \o ", " \o ModText(o[1], m[24], m[25]) \o ", " \o ModText(o[2], m[27], m[28])
+                           \o (IF o[3] = None THEN "" ELSE ", " \o ModText(o[3], m[29], m[30]))
+    [] d.f = "vop3b" -> nm \o " " \o (IF o[4] = None THEN "" ELSE dst \o ", ") \o OpText(o[5]) \o ", " \o s0 \o ", " \o s1
+                           \o (IF op # 281 /\ o[3] # None THEN ", " \o s2 ELSE "")
+    [] d.f = "ds" ->
+         nm \o " " \o (IF op \in {54, 55, 56, 57, 58, 59, 60, 118, 119, 120, 254, 255} THEN dst \o ", " ELSE "")
+            \o OpText(o[6])
+            \o (IF o[7] # None THEN ", " \o OpText(o[7]) ELSE "")
+            \o (IF o[8] # None THEN ", " \o OpText(o[8]) ELSE "")
+            \o (IF op \in {13, 54, 254, 255}
+                THEN (IF m[7] > 0 THEN " offset:" \o ToString(m[7]) ELSE "")
+                ELSE (IF m[7] > 0 THEN " offset0:" \o ToString(m[7]) ELSE "")
+                     \o (IF m[9] > 0 THEN " offset1:" \o ToString(m[9]) ELSE ""))
+    [] d.f = "flat" ->
+         LET glob == o[12][2] = 127
+             name == IF glob THEN row.alt ELSE nm
+         IN IF op \in 16..23 THEN name \o " " \o dst \o ", " \o OpText(o[6]) \o (IF glob THEN ", off" ELSE "")
+            ELSE IF op \in 24..31 THEN name \o " " \o OpText(o[6]) \o ", " \o OpText(o[7]) \o (IF glob THEN ", off" ELSE "")
+            ELSE ""
+
+\* the text, or Unprintable when some operand has no specified text
+Disasm(d) ==
+  IF \E i \in 1..Len(d.o) : d.o[i] # None /\ OpText(d.o[i]) = Unprintable
+  THEN Unprintable ELSE PrintRaw(d)
 
 =============================================================================
